@@ -142,6 +142,8 @@ impl Property for Occurrences {
                             let v = v.to_string();
                             a.long.as_ref().map(|l| v.contains(&format!("--{l}"))).unwrap_or(false)
                                 || a.short.map(|s| v.contains(&format!("-{s}"))).unwrap_or(false)
+                                // a positional is displayed by its value name: <id> / [id] with an optional `...`
+                                || (a.is_positional() && (v.contains(&format!("<{}>", a.id)) || v.contains(&format!("[{}]", a.id))))
                         }
                     });
                 }
